@@ -31,4 +31,9 @@ def scenarios(tier):
                   ("TRAVELZ", "I1", 2), ("ZMOVE", 2), ("ZMOVE", 1), ("INCH",), ("MM",), ("REL",), ("ABS",)],
                  max_depth=6 if q else 8, max_states=3000000),
     ]
+    out.append(Scenario("c03-arcs", World, dict(prop="C03", monitors=mon, regions=["R"], emax=1, key_depth=False),
+                        [("TRAVEL", "O1"), ("TRAVEL", "O2"), ("TRAVEL", "I1"), ("ARC", "cross"), ("ARC", "into"),
+                         ("ARC", "under"), ("ZMOVE", 2), ("ZMOVE", 1), ("XONLY", "O2"), ("YONLY", "I1"), ("PRINT", "O3")],
+                        max_states=100000 if q else 1000000,
+                        note="arcs crossing or ending in the region followed by Z-only and single-axis moves"))
     return out
